@@ -78,6 +78,31 @@ pub fn eval_points(name: &str, k: &BigUint) -> Outcome {
     if x1 != Some(ser_u(&r1)) || x2 != Some(ser_u(&d1)) || x3 != Some(ser_c(&r2)) || x4 != Some(ser_c(&d2)) || x5 != Some(ser_u(&d2)) {
         return Outcome::bad(class, mkv("cross-deserialisation", case, "both engines parse each other's points to the same point".into(), format!("{:?}", [x1.is_some(), x2.is_some(), x3.is_some(), x4.is_some(), x5.is_some()])));
     }
+    // malleability: add k*p to each 48-byte coefficient slot of the reference engine's encodings;
+    // both engines must agree on accept/reject and, if accepted, on the value
+    let p_mod = big(refmodel::spec::P_HEX);
+    let blobs: Vec<(&str, Vec<u8>)> = vec![("G1 uncompressed", ser_u(&r1)), ("G1 compressed", ser_c(&r1)), ("G2 uncompressed", ser_u(&r2)), ("G2 compressed", ser_c(&r2))];
+    for (what, blob) in blobs {
+        for slot in 0..blob.len() / 48 {
+            for kmul in [1u32, 3, 100] {
+                let v = BigUint::from_bytes_le(&blob[48 * slot..48 * slot + 48]) + &p_mod * kmul;
+                if v.bits() > 384 {
+                    continue;
+                }
+                let mut b2 = blob.clone();
+                b2[48 * slot..48 * slot + 48].copy_from_slice(&refmodel::fld::to_le_n(&v, 48));
+                let (dv, rv): (Option<Vec<u8>>, Option<Vec<u8>>) = match what {
+                    "G1 uncompressed" => (<D as Pairing>::G1Affine::deserialize_uncompressed(&b2[..]).ok().map(|x| ser_u(&x)), <R as Pairing>::G1Affine::deserialize_uncompressed(&b2[..]).ok().map(|x| ser_u(&x))),
+                    "G1 compressed" => (<D as Pairing>::G1Affine::deserialize_compressed(&b2[..]).ok().map(|x| ser_u(&x)), <R as Pairing>::G1Affine::deserialize_compressed(&b2[..]).ok().map(|x| ser_u(&x))),
+                    "G2 uncompressed" => (<D as Pairing>::G2Affine::deserialize_uncompressed(&b2[..]).ok().map(|x| ser_u(&x)), <R as Pairing>::G2Affine::deserialize_uncompressed(&b2[..]).ok().map(|x| ser_u(&x))),
+                    _ => (<D as Pairing>::G2Affine::deserialize_compressed(&b2[..]).ok().map(|x| ser_u(&x)), <R as Pairing>::G2Affine::deserialize_compressed(&b2[..]).ok().map(|x| ser_u(&x))),
+                };
+                if dv != rv {
+                    return Outcome::bad(class, mkv("non-canonical coefficient", json!({"kind": "points", "scalar": name, "k": k.to_string(), "blob": what, "slot": slot, "plus_p_times": kmul}), format!("same verdict as the reference engine (accepts: {})", rv.is_some()), format!("accepts: {}", dv.is_some())));
+                }
+            }
+        }
+    }
     // on curve / subgroup checks of the crate's engine accept its own points
     if !d1.is_on_curve() || !d1.is_in_correct_subgroup_assuming_on_curve() || !d2.is_on_curve() || !d2.is_in_correct_subgroup_assuming_on_curve() {
         return Outcome::bad(class, mkv("validity", case, "on curve and in the prime-order subgroup".into(), "rejected".into()));
@@ -98,6 +123,24 @@ pub fn eval_pairing(na: &str, a: &BigUint, nb: &str, b: &BigUint, base_d: &Pairi
     let class = format!("pairing/{}", if (a * b % &q).is_zero() { "degenerate-input" } else { "generic" });
     if ser_u(&de) != ser_u(&re) || ser_c(&de) != ser_c(&re) {
         return Outcome::bad(class, mkv("pairing output", case, hex::encode(&ser_c(&re)[..32]), hex::encode(&ser_c(&de)[..32])));
+    }
+    // target-field encodings with a non-canonical coefficient: same verdict in both engines
+    {
+        let p_mod = big(refmodel::spec::P_HEX);
+        let blob = ser_u(&re);
+        for slot in [0usize, 5, 7, 11] {
+            let v = BigUint::from_bytes_le(&blob[48 * slot..48 * slot + 48]) + &p_mod * 20u32;
+            if v.bits() > 384 {
+                continue;
+            }
+            let mut b2 = blob.clone();
+            b2[48 * slot..48 * slot + 48].copy_from_slice(&refmodel::fld::to_le_n(&v, 48));
+            let dv = PairingOutput::<D>::deserialize_uncompressed(&b2[..]).ok().map(|x| ser_u(&x));
+            let rv = PairingOutput::<R>::deserialize_uncompressed(&b2[..]).ok().map(|x| ser_u(&x));
+            if dv != rv {
+                return Outcome::bad(class, mkv("non-canonical target-field coefficient", case, format!("same verdict as the reference engine (accepts: {})", rv.is_some()), format!("accepts: {}", dv.is_some())));
+            }
+        }
     }
     // bilinearity: e(aP, bQ) = e(P, Q)^(ab)
     let ab = (a * b) % &q;
